@@ -369,6 +369,14 @@ pub fn special_ext_tasks() -> Vec<ExtTask> {
         mk("a :- b. b :- not a. out(X) :- in(X), a.", false, "out(X) :- in(X).", "input: in/1. output: out/1.", ""),
         mk("out(X) :- in(X).", false, "aux(X) :- in(X), not aux2(X). aux2(X) :- aux(X). out(X) :- in(X), not aux2(X).", "input: in/1. output: out/1.", ""),
         mk("c :- not a. a :- b. b :- not a. p :- c.", false, "p.", "output: p/0.", ""),
+        // a placeholder as an ARGUMENT OF AN ATOM in a specification, a user-guide assumption and a lemma
+        mk("spec: out(n). spec: forall X (out(X) -> X = n).", true, "out(n).", "output: out/1. input: n -> integer.", ""),
+        mk("spec: out(n). spec: forall X (out(X) -> X = n).", true, "out(n+1).", "output: out/1. input: n -> integer.", ""),
+        mk("out(X) :- in(X), X != n.", false, "out(X) :- in(X), n != X.", "input: in/1. output: out/1. input: n. assumption: in(n).", "lemma: forall X (out(X) -> in(X) and not out(n))."),
+        mk("spec: forall X (out(X) <-> in(X) and in(n$i + 1)).", true, "out(X) :- in(X), in(n+1).", "input: in/1. output: out/1. input: n -> integer.", ""),
+        // constants whose numeric suffixes order differently from their byte order
+        mk("out(X) :- in(X), X != a2, X != a10, X != a9.", false, "out(X) :- in(X), X != a9, X != a10, X != a2.", "input: in/1. output: out/1.", ""),
+        mk("spec: forall X (out(X) <-> in(X) and X != v10 and X != v2).", true, "out(X) :- in(X), X != v2, X != v10.", "input: in/1. output: out/1.", ""),
         // one symbol at several arities with different visibility (private/public/input), clashing private copies on both sides
         mk("q(X) :- in(X). q(X,X) :- q(X).", false, "q(X) :- in(X). q(X,X) :- q(X).", "input: in/1. output: q/2.", ""),
         mk("q(X) :- in(X), X > 0. q(X,X) :- q(X).", false, "q(X) :- in(X). q(X,X) :- q(X), X > 0.", "input: in/1. output: q/2.", ""),
